@@ -434,6 +434,8 @@ type World struct {
 	Gen      int
 	// Ancestors are the IO nodes every descendant must keep
 	Ancestors []IONode
+	// LibSeed is the seed the library's random source was given before the world was built
+	LibSeed int64
 	// Checkpoints counts the save / restore steps taken in mid-run
 	Checkpoints int
 	// ConstructErr is set when the constructor itself failed
@@ -449,14 +451,15 @@ type WorldSpec struct {
 	AllowRandom  bool // NewPopulationRandom worlds
 	AllowShipped bool
 	AllowRead    bool  // write the constructed population and read it back
+	AllowModular bool  // a share of the hand-built start genomes carries modules
 	Landscapes   []int // allowed landscape kinds (nil = all)
 }
 
 // NewWorld draws and constructs a world. The library RNG is seeded first.
 func NewWorld(t *Tape, spec WorldSpec) *World {
 	QuietLogs()
-	SeedLibrary(t)
-	w := &World{T: t}
+	seed := SeedLibrary(t)
+	w := &World{T: t, LibSeed: seed}
 	w.Opts = DrawOptions(t, spec.Prof)
 	w.Ctx, w.Cancel = context.WithCancel(neat.NewContext(context.Background(), w.Opts))
 	weights := []int{5, 0, 0}
@@ -469,7 +472,12 @@ func NewWorld(t *Tape, spec WorldSpec) *World {
 	switch t.Pick("startKind", weights...) {
 	case 0:
 		w.Kind, w.KindName = StartBuilt, "built"
-		w.Start = BuildGenome(t, spec.Genome)
+		if spec.AllowModular && t.Chance("modularStart", 1, 4) {
+			w.KindName = "built-modular"
+			w.Start = BuildModularGenome(t)
+		} else {
+			w.Start = BuildGenome(t, spec.Genome)
+		}
 	case 1:
 		name := shippedPlain[t.Draw("shipped", len(shippedPlain))]
 		w.Kind, w.KindName = StartShipped, "shipped:"+name
